@@ -15,10 +15,11 @@
    The algorithm is parameterised by a set of defect names dv, chosen in Init
    from DefectChoices.  dv = {} is the intended algorithm.  Each defect name
    switches on one deviation of the pinned code; with any of them the monitor
-   is violated (ASSUME Teeth, and TLC finds the violation of Conforms for
-   DefectChoices = {all}, the pinned tree) and the counterexample configurations are among
-   those replayed on the real code.  The variants are generators of cases and
-   of predictions to compare the real lines with, never oracles:
+   is violated (ASSUME Teeth; and the history dumps, which explore dv = {}
+   and dv = all six = the pinned tree, record the monitor's verdict `bad` for
+   every history) and the violating configurations are among those replayed on
+   the real code.  The variants are generators of cases and of predictions to
+   compare the real lines with, never oracles:
      "head_noclose"   _on_response returns after the headers of a HEAD
                       response: no close(sock) although announced, and the
                       (request, response) pair stays in HTTP._clients, so the
@@ -178,6 +179,11 @@ Framed == \A j \in 1..Len(out) :
             /\ (Bodiless(out[j]) \/ out[j].bodyeq)
 KeepAliveUsable == \A j \in 1..Len(out) : \A h \in 1..(j - 1) : ~out[h].closed
 NoStalePair == dv = {} => ~stale
+
+(* the same, for configurations that explore several defect sets at once (the
+   history dumps): only the intended algorithm is held to the property *)
+IConforms == dv = {} => Conforms
+IFramed   == dv = {} => Framed
 
 (* the model has teeth: every single defect makes some configuration violate
    the monitor already as the first request of a connection *)
